@@ -219,6 +219,30 @@ theorem flRun_prefix (conn : Option GRIBIConnection) (opErr : Status) (cs : List
     obtain ⟨a, ha⟩ := this
     exact ⟨a ++ m, by rw [hm, ha, List.append_assoc]⟩
 
+/-! ### the hypotheses are satisfiable (tests, not theorems): a concrete run -/
+
+/-- two entries, an election update, one more entry: ids 1, 2 and 3; the first request is stamped
+with the initial id, the last with the updated one; the update is queued between them -/
+example :
+    let e : AFTOperation := { Id := 0, ElectionId := none, Op := 0 }
+    let s0 : FlState := { opCount := 0, curElec := some { lo := 1, hi := 0 } }
+    let cs : List FlCall := [.add [e, e], .updateElection 7 0, .add [e]]
+    (∀ c ∈ cs, c.wf) ∧
+    (flRun (some { redundMode := 2 }) ⟨.Unknown, .none⟩ s0 cs).opCount = 3 ∧
+    (flRun (some { redundMode := 2 }) ⟨.Unknown, .none⟩ s0 cs).curElec = some { lo := 7, hi := 0 } ∧
+    (flRun (some { redundMode := 2 }) ⟨.Unknown, .none⟩ s0 cs).queued =
+      [Eff.flQ (some { Operation := [{ e with Id := 1, Op := AFTOperation_ADD, ElectionId := some { lo := 1, hi := 0 } },
+                                      { e with Id := 2, Op := AFTOperation_ADD, ElectionId := some { lo := 1, hi := 0 } }] }),
+       Eff.flQElec (some { ElectionId := some { lo := 7, hi := 0 } }),
+       Eff.flQ (some { Operation := [{ e with Id := 3, Op := AFTOperation_ADD, ElectionId := some { lo := 7, hi := 0 } }] })] := by
+  refine ⟨?_, ?_, ?_, ?_⟩
+  · intro c hc
+    simp only [List.mem_cons, List.mem_nil_iff, or_false] at hc
+    rcases hc with rfl | rfl | rfl <;> simp [FlCall.wf]
+  · decide
+  · decide
+  · decide
+
 theorem gen_flmodify_translated :
     Gen.flAddEntry_problem = none ∧ Gen.flDeleteEntry_problem = none ∧ Gen.flReplaceEntry_problem = none ∧
     Gen.flUpdateElectionID_problem = none ∧ Gen.flEnqueue_problem = none ∧ Gen.flInjectRequest_problem = none :=
